@@ -48,6 +48,8 @@ def mk(c, vs, form='float'):
         vs = [v.astype(np.int64) for v in vs]
     elif form in ('uint8', 'int8'):
         vs = [v.astype(form) for v in vs]
+    elif form == 'matrix':       # the documented 6 x N array form, for every N >= 1
+        return C(np.column_stack(vs))
     elif form == 'int_list' and len(vs) == 1:
         return C([int(t) for t in vs[0]])
     elif form == 'list' and len(vs) == 1:
@@ -319,6 +321,8 @@ def run(ctx):
         c = SV[rng.integers(4)]
         m = 1 if rng.random() < 0.6 else int(rng.integers(2, 5))
         drive(RUNNERS, ctx, 'arith', dict(cls=c, op=['add', 'sub', 'neg'][rng.integers(3)], A=[vec6(rng) for _ in range(m)], B=[vec6(rng) for _ in range(m)]))
+        if rng.random() < 0.2:
+            drive(RUNNERS, ctx, 'arith', dict(cls=c, op=['add', 'sub', 'neg'][rng.integers(3)], form='matrix', A=[vec6(rng) for _ in range(m)], B=[vec6(rng) for _ in range(m)]))
         if rng.random() < 0.15:      # whole numbers held in a narrow / unsigned integer array: the sum, difference or negative may not fit the type
             ft = ['uint8', 'int8'][rng.integers(2)]
             lo_, hi_ = (0, 256) if ft == 'uint8' else (-127, 128)
